@@ -15,7 +15,7 @@ from vlib.runner import Checker, Component, Result, Scratch, exc_sig
 PROPERTY = "C16"
 LEVEL = "exploration"
 RULE = (
-    "Hypothesis draws windows (RA limits in [0,360], Dec limits anywhere incl. +-90 and polar caps), sizes N with chunk sizes around divisors of N, "
+    "Hypothesis draws windows (RA limits in [0,360], sometimes across RA=0 with a negative lower or an upper limit above 360; Dec limits anywhere incl. +-90 and polar caps), sizes N with chunk sizes around divisors of N, "
     "seeds, attribute arrays with distinct joint rows, patch mode (centres or patch_num with probe_size in [10*patch_num, N]) and a history of earlier "
     "uses of the same generator object. Oracle: record count == N; all points inside the window (1e-12 rad in RA, 2e-8 in Dec); every stored "
     "(weight, redshift) pair is a row of the supplied arrays; the same generator object after other uses and a fresh generator with the same "
@@ -30,8 +30,14 @@ ASSUMPTIONS = [
 
 @st.composite
 def window(draw):
-    ra0 = draw(st.one_of(gen.floats(0.0, 350.0), st.just(0.0)))
-    ra1 = draw(st.one_of(gen.floats(ra0 + 0.5, 360.0), st.just(360.0)))
+    if draw(st.integers(0, 4)) == 0:
+        # window across RA = 0 written with a negative lower or an upper limit beyond 360 degrees
+        # (e.g. -30..20 or 350..370); membership is then meant modulo 360 degrees
+        ra0 = draw(st.one_of(gen.floats(-180.0, -0.5), gen.floats(200.0, 359.5)))
+        ra1 = draw(gen.floats(max(ra0 + 0.5, 0.5 if ra0 < 0 else 360.5), ra0 + 359.0))
+    else:
+        ra0 = draw(st.one_of(gen.floats(0.0, 350.0), st.just(0.0)))
+        ra1 = draw(st.one_of(gen.floats(ra0 + 0.5, 360.0), st.just(360.0)))
     dec0 = draw(st.one_of(gen.floats(-90.0, 80.0), st.just(-90.0)))
     dec1 = draw(st.one_of(gen.floats(dec0 + 0.5, 90.0), st.just(90.0)))
     return [ra0, ra1, dec0, dec1]
@@ -120,7 +126,10 @@ def run_case(case):
             ra, dec = rec[:, 0], rec[:, 1]
             lo, hi = math.radians(win[0]), math.radians(win[1])
             dlo, dhi = math.radians(win[2]), math.radians(win[3])
-            ck.expect(np.all((ra >= lo - 1e-12) & (ra <= hi + 1e-12)), "footprint:ra-outside-window", f"[{ra.min()}, {ra.max()}] vs [{lo}, {hi}]")
+            rel = np.mod(ra - lo, 2 * math.pi)  # position inside the window, modulo a full turn
+            ck.expect(np.all((rel <= (hi - lo) + 1e-12) | (rel >= 2 * math.pi - 1e-12)), "footprint:ra-outside-window", f"[{ra.min()}, {ra.max()}] vs [{lo}, {hi}]")
+            if win[0] < 0 or win[1] > 360:
+                ck.cls("window-across-ra0-with-out-of-range-limit")
             ck.expect(np.all((dec >= dlo - 2e-8) & (dec <= dhi + 2e-8)), "footprint:dec-outside-window", f"[{dec.min()}, {dec.max()}] vs [{dlo}, {dhi}]")
             rows = np.array(case["rows"], float)
             if case["attrs"] == "both":
@@ -166,7 +175,7 @@ def run_uniform(case):
     ck.expect(n == case["n"], "uniform:count")
     lo, hi = math.radians(win[0]), math.radians(win[1])
     slo, shi = math.sin(math.radians(win[2])), math.sin(math.radians(win[3]))
-    u = (ra - lo) / (hi - lo)
+    u = np.mod(ra - lo, 2 * math.pi) / (hi - lo)
     v = (np.sin(dec) - slo) / (shi - slo)
     # equal-area cells in (RA, sin Dec)
     iu = np.clip((u * 8).astype(int), 0, 7)
